@@ -1716,7 +1716,11 @@ class Stream(AbstractStream):
                 self.phase = phase
                 imol = other._imol.get_phase(phase)
             else:
-                self.phases = other.phases
+                # Present material is replaced; it must not be carried over
+                # to a phase that the other stream may not have.
+                self.empty()
+                self.phase = phases[0]
+                self.phases = phases
                 imol = other._imol
         else:
             imol = other._imol
